@@ -4,7 +4,9 @@ set -e
 export CARGO_NET_OFFLINE=true
 cd /verif/sim
 cargo build --offline -q --workspace
+# Warm the Miri build (its own target dir) so the first C33 check does not pay for it.
 if [ -x /verif/sim/mirisim/run.sh ]; then
-  /verif/sim/mirisim/run.sh --build-only || true
+  VERIF_EVIDENCE_DIR=/tmp /verif/sim/mirisim/run.sh C33 --tier quick --evidence /tmp/mirisim-warmup.json >/dev/null 2>&1 || true
+  rm -f /tmp/mirisim-warmup.json
 fi
 echo "setup ok"
